@@ -74,6 +74,7 @@ def strategy(tier):
     return st.fixed_dictionaries({
         "reaction": st.tuples(rs, st.sampled_from([False, False, True])).map(force_pc),
         "all_pc": st.booleans(),
+        "warm_start": st.booleans(),
         "parent_hel": st.sampled_from([False, False, True]),
         "child_hel": st.sampled_from([True, True, True, False]),
         "point_seed": st.integers(0, 2**31 - 1),
@@ -132,7 +133,18 @@ def run_case(desc) -> Result:  # noqa: C901, PLR0911, PLR0912, PLR0914, PLR0915
         rdesc["topos"] = [dict(td, pc=[True] * len(td["pc"])) for td in rdesc["topos"]]
     rdesc["formalism"] = "helicity"
     cfg_h = dict(DEFAULT_CONFIG, parent_hel=desc["parent_hel"], child_hel=desc["child_hel"])
-    prep_h = prepare(rdesc, cfg_h)
+    if desc.get("warm_start"):
+        # the builder has already formulated a model with the default naming flags before the flags
+        # of this case are set (coefficient names and parity signs must follow the *current* flags)
+        prep_h = prepare(rdesc, dict(DEFAULT_CONFIG))
+        if prep_h is None:
+            return skip("no_transitions")
+        formulate(prep_h)
+        prep_h.builder.naming.insert_parent_helicities = bool(desc["parent_hel"])
+        prep_h.builder.naming.insert_child_helicities = bool(desc["child_hel"])
+        prep_h.config = cfg_h
+    else:
+        prep_h = prepare(rdesc, cfg_h)
     if prep_h is None:
         return skip("no_transitions")
     # the canonical twin must describe the same particles: freeze the (possibly clamped) spins
@@ -140,6 +152,8 @@ def run_case(desc) -> Result:  # noqa: C901, PLR0911, PLR0912, PLR0914, PLR0915
     reaction_h = prep_h.reaction
     info = summarize(built_h)
     labels = [f"n={rdesc['n']}", f"topologies={info['n_topologies']}"]
+    if desc.get("warm_start"):
+        labels.append("flags_set_after_a_first_formulate")
     if desc["parent_hel"]:
         labels.append("insert_parent_helicities")
     if not desc["child_hel"]:
